@@ -201,3 +201,14 @@ Print Assumptions C12_linear_delivers_written.
 Print Assumptions C12_linear_equals_per_file.
 Print Assumptions C12_linear_any_sink.
 Print Assumptions C12_spec_file.
+
+(* ---------- Tie A, decision logic (tools/src2v2.py -> gen/Src2.v): linear_extract: rewind first, EndOfArchiveData is the only exit of the scan ---------- *)
+From MLA Require SrcTie2Events.
+Check SrcTie2Events.linear_extract_facts.
+Theorem C12_tie_linear_extract_facts : ltac:(let t := type of SrcTie2Events.linear_extract_facts in exact t).
+Proof. exact SrcTie2Events.linear_extract_facts. Qed.
+Print Assumptions C12_tie_linear_extract_facts.
+Check SrcTie2Events.EV_linear_extract_shape.
+Theorem C12_tie_EV_linear_extract_shape : ltac:(let t := type of SrcTie2Events.EV_linear_extract_shape in exact t).
+Proof. exact SrcTie2Events.EV_linear_extract_shape. Qed.
+Print Assumptions C12_tie_EV_linear_extract_shape.
